@@ -28,10 +28,13 @@ package main
 //@   ensures [main-parsed] err == nil && mode == RunModeLint ==> result != nil && result.AST != nil
 //@   ensures [fatal-include-error] err == nil && mode == RunModeLint ==> $lt != nil && $lt.FatalError == nil
 //@   loop 1 invariant r != nil && r.config != nil && r.errors == old(r.errors) && r.overrides == old(r.overrides)
-//@   loop 2 invariant r != nil && r.config != nil && r.errors >= old(r.errors) && ((r.errors > old(r.errors)) == (exists j int :: 0 <= j && j <= rangeindex && effsev(r, $lt.Errors[j]) == linter.ERROR))
+//@   loop 2 invariant r != nil && r.config != nil && r.errors >= old(r.errors)
+//@   loop 2 invariant r.errors > old(r.errors) ==> (exists j int :: 0 <= j && j <= rangeindex && effsev(r, $lt.Errors[j]) == linter.ERROR)
+//@   loop 2 invariant forall j int :: 0 <= j && j <= rangeindex && effsev(r, $lt.Errors[j]) == linter.ERROR ==> r.errors > old(r.errors)
 //@   loop 2 assume forall s string :: base(r.lintErrors[s]) != base($lt.Errors)
 //@   loop 2 invariant r.overrides == old(r.overrides) && r.errors < 1000000000 + rangeindex + 1
-//@   ensures [error-verdict] err == nil && mode == RunModeLint ==> ((r.errors > old(r.errors)) == (exists j int :: 0 <= j && j < len($lt.Errors) && effsev(r, $lt.Errors[j]) == linter.ERROR))
+//@   ensures [error-verdict-only-if] err == nil && mode == RunModeLint && r.errors > old(r.errors) ==> (exists j int :: 0 <= j && j < len($lt.Errors) && effsev(r, $lt.Errors[j]) == linter.ERROR)
+//@   ensures [error-verdict-if] err == nil && mode == RunModeLint ==> (forall j int :: 0 <= j && j < len($lt.Errors) && effsev(r, $lt.Errors[j]) == linter.ERROR ==> r.errors > old(r.errors))
 
 //@ func (*Runner).Run [C04]
 //@   requires r != nil && r.config != nil && r.errors == 0
